@@ -416,8 +416,9 @@ impl RowProof {
             );
         }
 
-        let length = self.end_row - self.start_row + 1;
-        if length as usize != self.proofs.len() {
+        // computed in usize, `end_row - start_row + 1` overflows u16 for the span 0..=65535
+        let length = usize::from(self.end_row - self.start_row) + 1;
+        if length != self.proofs.len() {
             bail_verification!(
                 "length based on start_row and end_row ({}) != length of proofs ({})",
                 length,
